@@ -39,63 +39,63 @@ pub fn plan_for(prop: &str, tier: &str) -> Plan {
     match prop {
         "C01" => {
             p.scenarios = if q {
-                sc(&[("fig8-div", 1), ("snap-fig8", 1), ("fig8", 1), ("fig8-div", 2), ("snap", 1), ("member", 1), ("crash3", 1)])
+                sc(&[("fig8-div", 1), ("fig8-back", 1), ("snap-fig8", 1), ("fig8", 1), ("fig8-div", 2), ("snap", 1), ("member", 1), ("crash3", 1)])
             } else {
-                sc(&[("fig8-div", 1), ("snap-fig8", 1), ("fig8", 1), ("fig8-div", 2), ("snap", 1), ("member", 1), ("crash3", 1), ("fig8-div", 3), ("snap", 2), ("member", 2), ("crash3", 2), ("fig8-pv", 1), ("fig8", 2), ("fig8-div", 4), ("fig8-pv", 0), ("fig8", 3)])
+                sc(&[("fig8-div", 1), ("fig8-back", 1), ("snap-fig8", 1), ("fig8", 1), ("fig8-div", 2), ("snap", 1), ("member", 1), ("crash3", 1), ("fig8-div", 3), ("snap", 2), ("member", 2), ("crash3", 2), ("fig8-pv", 1), ("fig8", 2), ("fig8-div", 4), ("fig8-pv", 0), ("fig8", 3)])
             };
             p.required_stats = vec![Stat::CommitAdvances, Stat::EntriesApplied, Stat::LeadersSeen];
             p.explanation = "explicit-state exploration; ghost committed-log registry: every report of an index as committed (commit index, hand-out for apply, snapshot install) must agree with the first report, and a node's retained log below its commit index must agree with the registry after every API call".into();
         }
         "C02" => {
             p.scenarios = if q {
-                sc(&[("elect", 1), ("elect-pv", 1), ("elect-cq", 1), ("elect-pvcq", 1), ("elect-stale", 0), ("stale", 1), ("member", 1), ("crash3", 1), ("xfer-abort", 0), ("elect", 3)])
+                sc(&[("elect", 1), ("elect-pv", 1), ("elect-cq", 1), ("elect-pvcq", 1), ("elect-stale", 0), ("stale", 1), ("member", 1), ("crash3", 1), ("xfer-abort", 0), ("xfer-race", 0), ("xfer-race", 1), ("elect", 3)])
             } else {
-                sc(&[("elect", 1), ("elect-pv", 1), ("elect-cq", 1), ("elect-pvcq", 1), ("elect-stale", 0), ("stale", 1), ("member", 1), ("crash3", 1), ("xfer-abort", 0), ("elect", 3), ("elect-prio", 3), ("elect-pvcq", 3), ("xfer", 1), ("stale", 2), ("member-joint", 2), ("member", 2), ("elect", 2), ("elect", 4)])
+                sc(&[("elect", 1), ("elect-pv", 1), ("elect-cq", 1), ("elect-pvcq", 1), ("elect-stale", 0), ("stale", 1), ("member", 1), ("crash3", 1), ("xfer-abort", 0), ("xfer-race", 0), ("xfer-race", 1), ("elect", 3), ("elect-prio", 3), ("elect-pvcq", 3), ("xfer", 1), ("stale", 2), ("member-joint", 2), ("member", 2), ("elect", 2), ("elect", 4)])
             };
             p.required_stats = vec![Stat::LeadersSeen, Stat::VotesGranted];
             p.explanation = "explicit-state exploration; ghost leader_of[term] checked after every API call on every node, across crashes and restarts (crash cuts between receiving a vote request and persisting the vote included)".into();
         }
         "C03" => {
             p.scenarios = if q {
-                sc(&[("fig8-div", 1), ("fig8", 1), ("fig8-div", 2), ("elect-pvcq", 1), ("elect-prio", 1), ("elect-stale", 0), ("elect-prio-stale", 0), ("xfer", 0), ("xfer-abort", 0)])
+                sc(&[("fig8-div", 1), ("fig8", 1), ("fig8-div", 2), ("fig8-back", 1), ("elect-pvcq", 1), ("elect-prio", 1), ("elect-stale", 0), ("elect-prio-stale", 0), ("xfer", 0), ("xfer-lag2", 0), ("xfer-abort", 0)])
             } else {
-                sc(&[("fig8-div", 1), ("fig8", 1), ("fig8-div", 2), ("elect-pvcq", 1), ("elect-prio", 1), ("elect-stale", 0), ("elect-prio-stale", 0), ("xfer", 0), ("xfer-abort", 0), ("fig8-div", 3), ("elect-prio", 3), ("xfer-abort", 1), ("xfer", 1), ("fig8", 2), ("xfer-abort", 2), ("fig8", 3)])
+                sc(&[("fig8-div", 1), ("fig8", 1), ("fig8-div", 2), ("fig8-back", 1), ("elect-pvcq", 1), ("elect-prio", 1), ("elect-stale", 0), ("elect-prio-stale", 0), ("xfer", 0), ("xfer-lag2", 0), ("xfer-abort", 0), ("fig8-div", 3), ("elect-prio", 3), ("xfer-abort", 1), ("xfer", 1), ("fig8", 2), ("xfer-abort", 2), ("fig8", 3)])
             };
             p.required_stats = vec![Stat::LeadersSeen, Stat::VotesGranted, Stat::PreVotesGranted, Stat::CommitAdvances];
             p.explanation = "explicit-state exploration; (a) every leader's log checked against the registry of entries committed in earlier terms after every API call, (b) every generated vote / pre-vote grant checked against the voter's own last (term, index) in its pre-state".into();
         }
         "C04" => {
             p.scenarios = if q {
-                sc(&[("repl", 1), ("repl-i1-sz", 1), ("crash3", 1), ("crash2-async", 1), ("crash2-async-loose", 1), ("relead5", 1), ("relead5", 2), ("member-joint", 1), ("member", 1), ("fig8", 1)])
+                sc(&[("repl", 1), ("repl-i1-sz", 1), ("crash3", 1), ("crash2-async", 1), ("fig8-div", 1), ("fig8-div", 2), ("fig8-back", 0), ("crash2-async-loose", 1), ("relead5", 1), ("relead5", 2), ("member-joint", 1), ("member", 1), ("fig8", 1)])
             } else {
-                sc(&[("repl", 1), ("repl-i1-sz", 1), ("crash3", 1), ("crash2-async", 1), ("crash2-async-loose", 1), ("relead5", 1), ("relead5", 2), ("member-joint", 1), ("member", 1), ("fig8", 1), ("repl-async", 1), ("repl-gc", 1), ("repl-skip", 1), ("repl", 2), ("crash3-async", 1), ("member-joint", 2), ("member", 2), ("crash3-async-loose", 1), ("repl", 3)])
+                sc(&[("repl", 1), ("repl-i1-sz", 1), ("crash3", 1), ("crash2-async", 1), ("fig8-div", 1), ("fig8-div", 2), ("fig8-back", 0), ("crash2-async-loose", 1), ("relead5", 1), ("relead5", 2), ("member-joint", 1), ("member", 1), ("fig8", 1), ("repl-async", 1), ("repl-gc", 1), ("repl-skip", 1), ("repl", 2), ("crash3-async", 1), ("member-joint", 2), ("member", 2), ("crash3-async-loose", 1), ("repl", 3)])
             };
             p.required_stats = vec![Stat::CommitAdvances, Stat::Crashes];
             p.explanation = "explicit-state exploration; at every leader commit advance: entry of own term and durable (on the simulated disks, not in raft-rs bookkeeping) on a majority of each half of the leader's configuration; non-leader commit never beyond a leader's".into();
         }
         "C05" => {
             p.scenarios = if q {
-                sc(&[("fig8", 1), ("fig8-div", 2), ("repl", 1), ("repl-div", 1), ("repl-mix", 1), ("crash3", 1), ("repl-batch", 1)])
+                sc(&[("fig8-back", 0), ("fig8-back", 1), ("fig8", 1), ("fig8-div", 2), ("repl", 1), ("repl-div", 1), ("repl-mix", 1), ("crash3", 1), ("repl-batch", 1)])
             } else {
-                sc(&[("fig8", 1), ("fig8-div", 2), ("repl", 1), ("repl-div", 1), ("repl-mix", 1), ("crash3", 1), ("repl-batch", 1), ("repl-div", 2), ("repl-mix", 3), ("fig8-div", 3), ("repl", 2), ("crash3", 2), ("fig8", 2), ("repl-batch", 2)])
+                sc(&[("fig8-back", 0), ("fig8-back", 1), ("fig8", 1), ("fig8-div", 2), ("repl", 1), ("repl-div", 1), ("repl-mix", 1), ("crash3", 1), ("repl-batch", 1), ("repl-div", 2), ("repl-mix", 3), ("fig8-div", 3), ("fig8-back", 2), ("repl", 2), ("crash3", 2), ("fig8", 2), ("repl-batch", 2)])
             };
             p.required_stats = vec![Stat::Truncations, Stat::CommitAdvances];
             p.explanation = "explicit-state exploration; pairwise log matching over all live nodes (stable + unstable entries) after every API call; leader append-only and committed-prefix immutability as pre/post relations of every call".into();
         }
         "C06" => {
             p.scenarios = if q {
-                sc(&[("crash2", 1), ("crash3", 1), ("crash2-async", 1), ("crash2-async-loose", 1), ("elect-stale-nosync", 0), ("stale", 0), ("stale-lazy", 0), ("stale-async", 0), ("snap-req", 0), ("crash3-lazy", 1)])
+                sc(&[("crash2", 1), ("crash3", 1), ("crash2-async", 1), ("xfer-race", 0), ("crash2-async-loose", 1), ("elect-stale-nosync", 0), ("stale", 0), ("stale-lazy", 0), ("stale-async", 0), ("snap-req", 0), ("crash3-lazy", 1)])
             } else {
-                sc(&[("crash2", 1), ("crash3", 1), ("crash2-async", 1), ("crash2-async-loose", 1), ("elect-stale-nosync", 0), ("stale", 0), ("stale-lazy", 0), ("stale-async", 0), ("snap-req", 0), ("crash3-lazy", 1), ("crash2", 3), ("crash3", 2), ("stale-lazy", 1), ("stale-async", 1), ("crash3-async", 1), ("crash2-async-loose", 2), ("elect", 2), ("crash3", 3)])
+                sc(&[("crash2", 1), ("crash3", 1), ("crash2-async", 1), ("xfer-race", 0), ("crash2-async-loose", 1), ("elect-stale-nosync", 0), ("stale", 0), ("stale-lazy", 0), ("stale-async", 0), ("snap-req", 0), ("crash3-lazy", 1), ("crash2", 3), ("crash3", 2), ("stale-lazy", 1), ("stale-async", 1), ("crash3-async", 1), ("crash2-async-loose", 2), ("elect", 2), ("crash3", 3)])
             };
             p.required_stats = vec![Stat::MsgsReleased, Stat::AcksReleased, Stat::VotesGranted, Stat::Crashes, Stat::Restarts];
             p.explanation = "explicit-state exploration over every crash point of the Ready round (after ready(), after k of the writes, after fsync, after persisted sends, after advance) in sync, async and lazy application modes; every released message checked against the node's durable disk at release time; one vote per term across incarnations; term monotone".into();
         }
         "C07" => {
             p.scenarios = if q {
-                sc(&[("crash2", 1), ("crash2-lag", 1), ("crash2-page", 1), ("crash2-async", 1), ("crash2-async-loose", 1), ("elect-stale", 0), ("fig8-div", 1), ("repl-div", 1), ("repl-mix-unp", 1), ("snap", 1), ("crash3", 1), ("repl", 1)])
+                sc(&[("crash2", 1), ("crash2-lag", 1), ("crash2-page", 1), ("crash2-split", 1), ("crash2-split", 2), ("crash2-async", 1), ("crash2-async-loose", 1), ("elect-stale", 0), ("fig8-div", 1), ("repl-div", 1), ("repl-mix-unp", 1), ("snap", 1), ("crash3", 1), ("repl", 1)])
             } else {
-                sc(&[("crash2", 1), ("crash2-lag", 1), ("crash2-page", 1), ("crash2-async", 1), ("crash2-async-loose", 1), ("elect-stale", 0), ("fig8-div", 1), ("repl-div", 1), ("repl-mix-unp", 1), ("snap", 1), ("crash3", 1), ("repl", 1), ("crash3-lag", 1), ("crash3-page", 1), ("crash3-unp", 1), ("crash3-lazy", 1), ("crash2", 3), ("snap", 2), ("crash3-async", 1), ("crash3", 2)])
+                sc(&[("crash2", 1), ("crash2-lag", 1), ("crash2-page", 1), ("crash2-split", 1), ("crash2-split", 2), ("crash2-async", 1), ("crash2-async-loose", 1), ("elect-stale", 0), ("fig8-div", 1), ("repl-div", 1), ("repl-mix-unp", 1), ("snap", 1), ("crash3", 1), ("repl", 1), ("crash3-lag", 1), ("crash3-page", 1), ("crash3-unp", 1), ("crash3-lazy", 1), ("crash2", 3), ("snap", 2), ("crash3-async", 1), ("crash3-split", 1), ("crash2-split", 3), ("crash3", 2)])
             };
             p.required_stats = vec![Stat::ReadyChecked, Stat::EntriesApplied, Stat::HasReadyCloneChecks, Stat::Truncations];
             p.explanation = "explicit-state exploration of every legal RawNode call history (advance | advance_append | advance_append_async + on_persist_ready in any batching, apply lag, pagination, truncation, snapshot, restart); application-side cursor model of the entries / hard state / committed-entries hand-off; has_ready() compared with ready() on a clone in every state".into();
@@ -120,12 +120,12 @@ pub fn plan_for(prop: &str, tier: &str) -> Plan {
         }
         "C10" => {
             p.scenarios = if q {
-                sc(&[("fig8-div-live", 1), ("snap-live", 0), ("xfer-live", 0), ("stale-pvcq-live", 0), ("flow-elect-live", 0), ("member-live", 0)])
+                sc(&[("fig8-div-live", 1), ("snap-live", 0), ("snap-cq2-live", 0), ("xfer-live", 0), ("stale-pvcq-live", 0), ("flow-elect-live", 0), ("member-live", 0)])
             } else {
-                sc(&[("fig8-div-live", 1), ("snap-live", 0), ("xfer-live", 0), ("stale-pvcq-live", 0), ("flow-elect-live", 0), ("member-live", 0), ("flow-live", 0), ("snap-live", 1), ("member-live", 1), ("fig8-div-live", 2), ("flow-live", 1), ("xfer-live", 1), ("fig8-live", 1)])
+                sc(&[("fig8-div-live", 1), ("snap-live", 0), ("snap-cq2-live", 0), ("xfer-live", 0), ("stale-pvcq-live", 0), ("flow-elect-live", 0), ("member-live", 0), ("flow-live", 0), ("snap-live", 1), ("snap-cq2-live", 1), ("member-live", 1), ("fig8-div-live", 2), ("flow-live", 1), ("xfer-live", 1), ("fig8-live", 1)])
             };
             p.required_stats = vec![Stat::LiveSuffixRuns];
-            p.explanation = "bounded convergence from every reachable state: for every distinct state of the prefix spaces a deterministic fault-free suffix (restart, complete persistence, report snapshots, (n+3)*max_timeout rounds of tick+deliver-to-quiescence, fresh proposal, same again) must end with one leader, converged logs and the fresh entry applied on every running member; a state counts as a violation only if it fails under all three election-timeout schedulers".into();
+            p.explanation = "bounded convergence from every reachable state: for every distinct state of the prefix spaces a deterministic fault-free suffix (restart, complete persistence, report snapshots, (n+3)*max_timeout rounds of tick+deliver-to-quiescence, fresh proposal, same again) must end with one leader, converged logs and the fresh entry applied on every running member; a state counts as a violation only if it fails under all three election-timeout schedulers; when a MsgSnapshot takes part in the recovery the suffix is run a second time with snapshots on a slow side channel (2*max_timeout+2 rounds per snapshot, heartbeats and appends flowing, status reported on arrival)".into();
             p.assumptions.push("C10 is a bounded rendering of an unbounded liveness statement: convergence within R = (n+3)*max_election_timeout rounds".into());
             p.assumptions.push("a node that applied its own removal is shut down by the application; a peer that is not a member of the configuration in force is stopped unless pre_vote and check_quorum are on".into());
         }
@@ -142,16 +142,16 @@ pub fn plan_for(prop: &str, tier: &str) -> Plan {
             p.scenarios = if q {
                 sc(&[("snap", 1), ("snap-joint", 0), ("snap-fig8", 1), ("snap-req", 0), ("snap", 2)])
             } else {
-                sc(&[("snap", 1), ("snap-joint", 0), ("snap-fig8", 1), ("snap-req", 0), ("snap", 2), ("snap-req", 1), ("snap-fig8", 2), ("snap-joint", 1), ("snap", 3), ("snap-joint", 2), ("snap", 4)])
+                sc(&[("snap", 1), ("snap-joint", 0), ("snap-fig8", 1), ("snap-req", 0), ("snap", 2), ("snap-req", 1), ("snap-memq", 1), ("snap-req-memq", 0), ("snap-fig8", 2), ("snap-joint", 1), ("snap", 3), ("snap-joint", 2), ("snap", 4)])
             };
             p.required_stats = vec![Stat::SnapshotsInstalled, Stat::SnapshotsSent];
             p.explanation = "explicit-state exploration over compaction points, lost/duplicated/stale/reordered MsgSnapshot, status reports, follower crash around the install; install / ignore / fast-forward post-conditions and the leader's send condition as pre/post relations".into();
         }
         "C16" => {
             p.scenarios = if q {
-                sc(&[("lease", 1), ("lease-hb2", 1), ("elect-pv", 1), ("elect-pvcq", 1), ("lease", 2), ("lease5", 0)])
+                sc(&[("lease", 1), ("lease-hb2", 1), ("elect-pv", 1), ("elect-pvcq", 1), ("lease", 2), ("lease-req", 1), ("lease5", 0)])
             } else {
-                sc(&[("lease", 1), ("lease-hb2", 1), ("elect-pv", 1), ("elect-pvcq", 1), ("lease", 2), ("lease5", 0), ("lease", 3), ("lease-hb2", 3), ("elect-pvcq", 3), ("lease5", 1), ("lease", 4)])
+                sc(&[("lease", 1), ("lease-hb2", 1), ("elect-pv", 1), ("elect-pvcq", 1), ("lease", 2), ("lease-req", 1), ("lease5", 0), ("lease", 3), ("lease-hb2", 3), ("elect-pvcq", 3), ("lease-req", 2), ("lease5", 1), ("lease", 4)])
             };
             p.required_stats = vec![Stat::PreVoteDelivered, Stat::PreVotesGranted, Stat::TermRaises];
             p.explanation = "explicit-state exploration; (a) term and vote unchanged over every delivered MsgRequestPreVote; (b) with pre_vote every term raise justified by the monitor's own tally of delivered grants, a peer's higher term or MsgTimeoutNow; (c) LEASE driver: all behaviours of the minority (ticks, campaigns, crash, restart, stale and duplicated traffic) against a majority in lock-step: leader keeps leading, majority keeps its term".into();
@@ -159,18 +159,18 @@ pub fn plan_for(prop: &str, tier: &str) -> Plan {
         }
         "C17" => {
             p.scenarios = if q {
-                sc(&[("xfer", 0), ("xfer-lag", 0), ("xfer-abort", 0), ("xfer-pipe", 0), ("xfer-lag-cc", 0), ("xfer", 1)])
+                sc(&[("xfer", 0), ("xfer-lag", 0), ("xfer-lag2", 0), ("xfer-race", 0), ("xfer-abort", 0), ("xfer-pipe", 0), ("xfer-lag-cc", 0), ("xfer", 1), ("xfer-race", 1)])
             } else {
-                sc(&[("xfer", 0), ("xfer-lag", 0), ("xfer-abort", 0), ("xfer-pipe", 0), ("xfer-lag-cc", 0), ("xfer", 1), ("xfer-pipe", 1), ("xfer-abort", 1), ("xfer-pvcq", 1), ("xfer-lag", 1), ("xfer-abort", 2), ("xfer", 2), ("xfer", 3)])
+                sc(&[("xfer", 0), ("xfer-lag", 0), ("xfer-lag2", 0), ("xfer-race", 0), ("xfer-abort", 0), ("xfer-pipe", 0), ("xfer-lag-cc", 0), ("xfer", 1), ("xfer-race", 1), ("xfer-pipe", 1), ("xfer-abort", 1), ("xfer-pvcq", 1), ("xfer-lag", 1), ("xfer-abort", 2), ("xfer-lag2", 1), ("xfer-race", 2), ("xfer", 2), ("xfer", 3)])
             };
             p.required_stats = vec![Stat::TransfersStarted, Stat::TimeoutNowSent, Stat::ProposalsRefused];
             p.explanation = "explicit-state exploration over all targets (voters, learner, unknown id, the leader itself), repeated and competing requests at leader and follower, lagging target, message loss; MsgTimeoutNow only to a caught-up target, proposals refused while pending, abort within election_tick leader ticks or when the target leaves the voters, bad targets are no-ops".into();
         }
         "C20" => {
             p.scenarios = if q {
-                sc(&[("elect", 1), ("fig8-div", 1), ("crash2", 1), ("crash2-async", 1), ("crash2-async-loose", 1), ("member-rm1", 0), ("member-joint", 1), ("lease", 1), ("snap", 0), ("snap-lazy", 0), ("snap-lag", 0), ("snap-req", 0), ("xfer-pipe", 0), ("xfer-lag-cc", 0), ("read", 1), ("stale", 0), ("stale-lazy", 0), ("stale-async", 0), ("repl-i1-sz", 1), ("repl-mix", 0), ("xfer", 0), ("xfer-abort", 0), ("flow", 0), ("flow-cap", 0), ("member", 0)])
+                sc(&[("elect", 1), ("fig8-div", 1), ("crash2", 1), ("crash2-split", 2), ("crash2-async", 1), ("member-joint", 1), ("lease", 1), ("snap", 0), ("snap-lazy", 0), ("snap-lag", 0), ("repl-compact-memq", 0), ("repl-compact", 0), ("xfer-lag-cc", 0), ("xfer", 0), ("repl-i1-sz", 1), ("repl-mix", 0), ("read", 1), ("flow", 0), ("flow-cap", 0), ("stale", 0), ("member-rm1", 0), ("xfer-abort", 0), ("member", 0), ("xfer-pipe", 0), ("crash2-async-loose", 1), ("stale-async", 0), ("stale-lazy", 0), ("snap-req", 0)])
             } else {
-                sc(&[("elect", 1), ("fig8-div", 1), ("crash2", 1), ("crash2-async", 1), ("crash2-async-loose", 1), ("member-rm1", 0), ("member-joint", 1), ("lease", 1), ("snap", 0), ("snap-lazy", 0), ("snap-lag", 0), ("snap-req", 0), ("xfer-pipe", 0), ("xfer-lag-cc", 0), ("read", 1), ("stale", 0), ("stale-lazy", 0), ("stale-async", 0), ("repl-i1-sz", 1), ("repl-mix", 0), ("xfer", 0), ("xfer-abort", 0), ("flow", 0), ("flow-cap", 0), ("member", 0), ("member-rm1-lazy", 1), ("member-rm1-async", 1), ("read-lease", 1), ("read-nofwd", 1), ("repl-fetch", 1), ("repl-gc", 1), ("elect-prio", 1), ("member-mix", 1), ("crash3", 1), ("repl-batch", 1), ("snap", 1), ("stale-lazy", 1), ("stale-async", 1), ("member", 1), ("crash3-lazy", 1), ("crash2-async-loose", 2), ("crash3-async", 1), ("fig8", 1), ("xfer", 1), ("flow", 1)])
+                sc(&[("elect", 1), ("fig8-div", 1), ("crash2", 1), ("crash2-split", 2), ("crash2-async", 1), ("member-joint", 1), ("lease", 1), ("snap", 0), ("snap-lazy", 0), ("snap-lag", 0), ("repl-compact-memq", 0), ("repl-compact", 0), ("xfer-lag-cc", 0), ("xfer", 0), ("repl-i1-sz", 1), ("repl-mix", 0), ("read", 1), ("flow", 0), ("flow-cap", 0), ("stale", 0), ("member-rm1", 0), ("xfer-abort", 0), ("member", 0), ("xfer-pipe", 0), ("crash2-async-loose", 1), ("stale-async", 0), ("stale-lazy", 0), ("snap-req", 0), ("member-rm1-lazy", 1), ("member-rm1-async", 1), ("read-lease", 1), ("read-nofwd", 1), ("repl-fetch", 1), ("repl-gc", 1), ("elect-prio", 1), ("member-mix", 1), ("crash3", 1), ("repl-batch", 1), ("snap", 1), ("stale-lazy", 1), ("stale-async", 1), ("member", 1), ("crash3-lazy", 1), ("crash2-async-loose", 2), ("crash3-async", 1), ("fig8", 1), ("xfer", 1), ("flow", 1), ("repl-compact-memq", 1), ("repl-compact", 1), ("snap-memq", 2), ("snap-fig8-memq", 1)])
             };
             p.required_stats = vec![Stat::BadMsgOffered, Stat::ReadyChecked, Stat::MsgsReleased];
             p.explanation = "every API call of every explored execution runs under catch_unwind: a panic, failed assert!/debug_assert!, fatal!, index out of bounds or arithmetic overflow (debug-assertions and overflow-checks are on) is a violation; in every state local-only message types and responses from non-members are offered to step() on a clone and must be rejected with the documented error without changing the state digest".into();
